@@ -58,3 +58,24 @@ package hack
 //@   ensures [C04:inv] inv(c)
 //@   ensures [C04:transparent] 0 <= n && n <= len(b) && delivered(c.tlsConn) == old(delivered(c.tlsConn)) ++ post(b)[:n]
 //@   ensures [C04:error-delivers-nothing] err != nil ==> n == 0 && delivered(c.tlsConn) == old(delivered(c.tlsConn))
+
+//@ func NewHijackClientHelloConn :: conn -> c
+//@   props C04,C06
+//@   assigns nothing
+//@   ensures [C06:fresh-wrapper] c != nil && fresh(c) && c.tlsConn == conn
+//@   ensures [C04:starts-empty] c.expectedLen == 0 && len(c.buf.view) == 0
+
+//@ func (*ChannelListener).SendToChannel :: ln, conn
+//@   trusted
+//@   assigns evlog, lastSent
+//@   ensures evlog == old(evlog) ++ seq[int]{2} && lastSent == conn
+
+//@ func field TLSClientHelloConn.Done
+//@   trusted
+//@   pure
+
+//@ func (*TLSClientHelloConn).Close :: c -> err
+//@   props C11
+//@   requires c != nil && c.Conn != nil
+//@   assigns c.Conn.tlsClosed
+//@   ensures [C11:closes-inner] c.Conn.tlsClosed == old(c.Conn.tlsClosed) + 1
